@@ -117,3 +117,7 @@ mod tests {
         Ok(())
     }
 }
+
+#[cfg(kani)]
+#[path = "/verif/harness/bam/reader_record.rs"]
+mod verif_kani;
